@@ -15,7 +15,6 @@ import (
 
 func (fl *FileList) MakeTar(writer io.Writer) error {
 	wrt := tar.NewWriter(writer)
-	defer wrt.Close()
 	for _, info := range fl.Files {
 		hdr := &tar.Header{
 			Name: "." + info.name,
@@ -70,7 +69,8 @@ func (fl *FileList) MakeTar(writer io.Writer) error {
 			}
 		}
 	}
-	return nil
+	// Close writes the end-of-archive blocks
+	return wrt.Close()
 }
 
 
